@@ -251,6 +251,20 @@ func C10Scenarios(tier string) []*h.Scenario {
 			out = append(out, s)
 		}
 	}
+	// non-default options that must not change how a protected node is treated: taint_effect NoExecute
+	// and max_node_age (no node is over age)
+	for _, world := range []string{"idle", "expired"} {
+		mk := func(strip bool, suffix string) *h.Scenario {
+			s := c10Scenario("c10."+world+".noexecute-maxage"+suffix, strip, 1, world)
+			s.Groups[0].Opts.TaintEffect = "NoExecute"
+			s.Groups[0].Opts.MaxNodeAge = "12h"
+			s.Slots = 6
+			return s
+		}
+		s := mk(false, "")
+		s.Twin = c10Twin(mk(true, ".twin"))
+		out = append(out, s)
+	}
 	// the cloud group has room for exactly one removal and the protected node is the longest tainted;
 	// and the "expired" world with max_nodes below the node count (every scan takes the over-maximum exit)
 	{
